@@ -64,6 +64,8 @@ def make_handlers(I, elem_region, s):
             if kind == "Read":
                 # a plain Read handler may refresh the stored value (reset_value bypasses rules by design)
                 fresh = I_.fresh("refreshed", Val)
+                if gg.get("refresh_target") is not None:   # deterministic refresh: every plain Read handler stores the same (legal) value
+                    fresh = gg["refresh_target"]
                 old = z3.Select(E.fields["_value"], gg["s"])
                 E.fields["_value"] = z3.Store(E.fields["_value"], gg["s"], z3.If(coro, old, fresh))
             m = Opaque("coroutine-or-None")
@@ -161,6 +163,10 @@ def _raise_havoc(ctx):
         mid = I.fresh("val_after_reads", A_IV)
         k = z3.Int("k")
         I.prover.assume(forall(k, implies(k != g["s"], z3.Select(mid, k) == z3.Select(g["loop_entry_value"], k))))
+        if g.get("refresh_target") is not None:
+            jj = z3.Int("jj")
+            some_plain = z3.Exists([jj], z3.And(visited(jj), z3.Not(z3.Select(H["is_coro"], jj))))
+            I.prover.assume(z3.Select(mid, g["s"]) == ite(some_plain, g["refresh_target"], z3.Select(g["loop_entry_value"], g["s"])))
         g["E"].fields["_value"] = mid
         seen = I.fresh("seen_mid", A_IV)
         H["seen_value"] = seen
@@ -273,6 +279,21 @@ def task_c14(kind, op):
                 I.call(I.getattr(el, "set_value_from_message"), [part], {})
             elif op == "read":
                 result = I.getattr(el, "value")
+            elif op == "publish":
+                legal = {"text": lambda t: is_str(t), "light": lambda t: z3.Or(*[t == VStr(z3.StringVal(x)) for x in ("Idle", "Ok", "Busy", "Alert")]),
+                         "switch": lambda t: z3.Or(t == VStr(z3.StringVal("On")), t == VStr(z3.StringVal("Off"))),
+                         "blob": lambda t: z3.Or(smt.is_none(t), smt.is_ref(t))}[kind]
+                target = I.fresh("refresh_target", Val)
+                run.assume(z3.And(legal(target), legal(old)))
+                I.ghost["refresh_target"] = target
+                if kind == "blob":
+                    # whatever the Read handlers left in the element is either None or a BLOB value (one generic object stands for it)
+                    vals_ = I.import_module("indi.device.values")
+                    gb = IObject(vals_.ns["BLOB"])
+                    gb.fields.update(binary=I.fresh_sym("refreshed_bytes"), format=I.fresh_sym("refreshed_format"))
+                    run.assume(z3.And(smt.is_bytes(gb.fields["binary"].term), is_str(gb.fields["format"].term)))
+                    I.ref_resolver = lambda I_, sym: gb if I_.kind(sym) == "ref" else None
+                result = I.call(I.getattr(el, "to_set_message"), [], {})
             else:
                 raise OutOfReach("op")
         except IRaise as e:
@@ -287,6 +308,14 @@ def task_c14(kind, op):
         pos = lambda pred: [ix for ix, t in enumerate(trace) if pred(t)]
         tasks_ok = lambda H, expect: forall(j, implies(in_range(j, H["n"]),
                                                        z3.Select(H["tasks"], j) == ite(z3.And(expect, z3.Select(H["is_coro"], j)), 1, 0)))
+        if op == "publish":
+            # "plain Read handlers run before a value is ... published so that they can refresh it"
+            run.oblige("C14|%s/every-Read-handler-runs-before-the-element-is-published" % label,
+                       forall(j, implies(in_range(j, HR["n"]), cnt(HR, j) >= 1)))
+            run.oblige("C14|%s/no-Write-or-Change-event" % label, z3.And(never(HW), never(HC)))
+            if kind in ("text", "light", "switch") and isinstance(result, IObject):
+                run.oblige("C14|%s/publishes-the-value-as-refreshed-by-the-Read-handlers" % label, I.to_term(result.fields["value"]) == val1)
+            return
         if op == "read":
             run.oblige("C14|%s/every-Read-handler-invoked-exactly-once" % label, once(HR))
             run.oblige("C14|%s/no-Write-or-Change-event" % label, z3.And(never(HW), never(HC)))
